@@ -10,7 +10,7 @@ EXPLANATION = (
     "sum has one write `sum = sum (+) htlc.amount_msat` with saturating/checked/interval-proved addition, on exactly the paths that store the listener; "
     "(R4) max_fee_msat = held sum (read under the table lock after readiness) saturating-minus amount to deliver; (R5) amount None for fixed-amount "
     "invoices, Some(trampoline.amount_msat) for amountless; (R6) the provider forwards bolt11/amount/maxfee/maxdelay/retry_for verbatim in both "
-    "branches and leaves maxfeepercent/exemptfee/partial_msat unset; (R7) the counted HTLCs stay held until pay's fate is known (C02-S5/S6). The "
+    "branches and leaves maxfeepercent/exemptfee/partial_msat unset; (R8) the amount to deliver is the invoice amount / the declared amount per the C10-A arm table; (R7) the counted HTLCs stay held until pay's fate is known (C02-S5/S6). The "
     "inequality over all multisets follows from R2-R4 and C12, it is not enumerated."
 )
 ASSUMPTIONS = ["C12 (the predicate is exact)", "CLN applies maxfee as an absolute cap when exemptfee/maxfeepercent are unset"]
@@ -28,3 +28,5 @@ def run(F, X, rep):
     P.r6_verbatim(C, rep, "C03-R6")
     R.s5_fail_requests_prepay_only(C, rep, "C03-R7")
     R.s6_after_pay(C, rep, "C03-R7")
+    import rules_ext as E
+    E.a_amount_table(C, rep, "C03-R8")
